@@ -57,7 +57,11 @@ with clause :=
 with forbody :=
 | FDo (e : expr)
 | FYield (e : expr)
-| FYieldKV (k v : expr).
+| FYieldKV (k v : expr)
+| FYieldInto (e : expr) (r : reducer)            (* yield e into r *)
+with reducer :=
+| RFirst | RLast | RCount | RSum | RLen          (* the builtins first, last, count, sum, len *)
+| RFun (f : expr).                               (* any other expression: applied to the list *)
 
 Definition param := (pkind * name * option expr)%type.
 
